@@ -1,4 +1,6 @@
 mod ctx;
+mod srp;
+mod c01;
 mod c04;
 mod c07;
 mod c13;
@@ -33,6 +35,7 @@ fn main() {
     let mut ctx = Ctx { prop: prop.clone(), tier, seed, out, shards, cases: Vec::new(), counters: BTreeMap::new(),
                         failures: Vec::new(), oracle_runs: 0, samples: Vec::new(), notes: Vec::new(), exhaustive: Vec::new() };
     match prop.as_str() {
+        "C01" => { c01::run(&mut ctx); ctx.finish("corr.C01", "run_C01"); }
         "C04" => { c04::run(&mut ctx); ctx.finish("corr.C04", "run_C04"); }
         "C07" => { c07::run(&mut ctx); ctx.finish("corr.C07", "run_C07"); }
         "C13" => { c13::run(&mut ctx); ctx.finish("corr.C13", "run_C13"); }
